@@ -38,6 +38,7 @@ func main() {
 	out := flag.String("out", "-", "output file")
 	shard := flag.Int("shard", 0, "shard index")
 	nshards := flag.Int("shards", 1, "number of shards")
+	rerun := flag.String("rerun", "", "re-execute the cases of this file instead of generating")
 	flag.Parse()
 	var f *os.File = os.Stdout
 	if *out != "-" {
@@ -53,6 +54,10 @@ func main() {
 	e := &emitter{w: bufio.NewWriterSize(f, 1<<20), rng: rand.New(rand.NewSource(*seed*1000003 + int64(*shard)))}
 	defer e.w.Flush()
 	e.comment(fmt.Sprintf("harness prop=%s tier=%s seed=%d shard=%d/%d go=%s", *prop, *tier, *seed, *shard, *nshards, runtime.Version()))
+	if *rerun != "" {
+		rerunFile(e, *rerun)
+		return
+	}
 	g, ok := generators[*prop]
 	if !ok {
 		fmt.Fprintln(os.Stderr, "unknown property", *prop)
